@@ -58,6 +58,8 @@ mod write_mode;
 pub mod code_examples;
 pub mod filter;
 mod util;
+#[cfg(flexi_logger_verif)]
+pub mod verif_hooks;
 pub mod writers;
 
 pub mod error_info;
